@@ -4,7 +4,7 @@ import Heph.Proofs.SubD2Sound
 # Lemmas about the leaf functions of the instantiation helpers and about `instOK`
 -/
 namespace Heph.Inst
-open Heph Heph.Ty
+open Heph Heph.Ty Heph.Ty.D2
 
 /-! ## `_get_available_types` -/
 
